@@ -533,6 +533,11 @@ def dtype_stream(rep: Report, rng: Rng):
         for dt in (torch.float16, torch.bfloat16, torch.float64):
             n = rng.choice([300, 700]) if dt != torch.float16 else rng.choice([300, 2300])
             xs = [rng.choice(G5 + [Fr(1, 8), Fr(3, 8), Fr(5, 8), Fr(7, 8)]) for _ in range(n)]
+            if dt == torch.float64 and r % 2 == 0:
+                # double precision scores that differ by less than single precision resolves (saturated probabilities):
+                # distinct scores are distinct thresholds; any internal down-cast of the scores merges them
+                xs = [v + Fr(rng.choice([0, 1, 2, 3]), 1 << 40) for v in xs]
+                rep.count("dtype-stream:float64-near-ties")
             ts = [rng.choice([0, 1]) for _ in range(n)]
             x = torch.tensor([float(v) for v in xs], dtype=dt)
             t = torch.tensor(ts, dtype=torch.int64)
